@@ -1473,6 +1473,11 @@ func (c *Conn) executeQuery(ctx context.Context, qry *Query) *Iter {
 		if len(values) != info.request.actualColCount {
 			return &Iter{err: fmt.Errorf("gocql: expected %d values send got %d", info.request.actualColCount, len(values))}
 		}
+		if len(values) > len(info.request.columns) {
+			// the PREPARED response described fewer bind columns than it counted (metadata flagged
+			// as absent, or a tuple-typed marker counted once per component)
+			return &Iter{err: fmt.Errorf("gocql: prepared statement expects %d values but describes %d bind columns", len(values), len(info.request.columns))}
+		}
 
 		params.values = make([]queryValues, len(values))
 		for i := 0; i < len(values); i++ {
@@ -1676,6 +1681,9 @@ func (c *Conn) executeBatch(ctx context.Context, batch *Batch) *Iter {
 
 			if len(values) != info.request.actualColCount {
 				return &Iter{err: fmt.Errorf("gocql: batch statement %d expected %d values send got %d", i, info.request.actualColCount, len(values))}
+			}
+			if len(values) > len(info.request.columns) {
+				return &Iter{err: fmt.Errorf("gocql: batch statement %d: prepared statement expects %d values but describes %d bind columns", i, len(values), len(info.request.columns))}
 			}
 
 			b.preparedID = info.id
